@@ -1023,7 +1023,13 @@ fn run_once(ops: &[String]) -> (CaseResult, bool) {
 /// a transaction that certainly creates a version: inserts of fresh keys, updates / deletes of keys this
 /// origin inserted earlier, every written value new
 fn gen_tx(rng: &mut Rng, site: usize, live: &mut Vec<u64>, ctr: &mut u64) -> String {
-    let m = if rng.chance(1, 2) { rng.range(2, 4) } else { 1 };
+    // many statements = a version with many seqs, so that a full queue can consist of chunks of ONE version
+    // (few keys in `seen`: the tick trim does not rescue a lost eviction)
+    let m = match rng.below(6) {
+        0 | 1 => 1,
+        2 | 3 => rng.range(2, 4),
+        _ => rng.range(4, 7),
+    };
     let mut st = vec![];
     for _ in 0..m {
         *ctr += 1;
@@ -1061,7 +1067,7 @@ fn gen_items(rng: &mut Rng, vers: &[u64]) -> Vec<GenItem> {
             match rng.below(10) {
                 0..=4 => items.push(GenItem { text: format!("o:{site}:{v}:all"), site, vs: (v, v) }),
                 _ => {
-                    let parts = rng.range(2, 4);
+                    let parts = rng.range(2, 6);
                     for k in 0..parts {
                         items.push(GenItem { text: format!("o:{site}:{v}:p{k}of{parts}"), site, vs: (v, v) });
                     }
@@ -1087,7 +1093,7 @@ impl Prop for C10 {
     }
     fn default_cases(&self, tier: Tier) -> usize {
         match tier {
-            Tier::Quick => 100,
+            Tier::Quick => 80,
             Tier::Thorough => 2000,
         }
     }
